@@ -155,6 +155,10 @@ def restart_items(tier):
         for nb in (1, 2):
             out.append((sp, dict(o, presim_back=nb)))
         out.append((sp, dict(o, presim_back=1, presim_back_rev=False)))  # the earlier backward run left its logs unreversed
+        one = dict(sp, workplaces=[dict(wp, wire_inputs="one-sided") for wp in sp["workplaces"]])  # the same layout with its links declared on the receiving side only
+        out.append((one, dict(o)))
+        out.append((one, dict(o, presim_back=1)))
+        out.append((one, dict(o, presim=1, presim_back=1)))
     # stopped at step k, written to JSON, read into a new project and continued there (placement state has to survive the round trip)
     for sp, o in items(tier)[:: (4 if tier == "quick" else 2)]:
         for k in (1, 2, 3):
